@@ -72,6 +72,7 @@ package varmq
 //@   ensures [closed]     old(j.status) == closed ==> result == ErrJobAlreadyClosed && j.status == closed && j.wg == old(j.wg) && $acks(j.queue) == old($acks(j.queue))
 //@   ensures [done]       result == nil ==> old(j.status) != processing && old(j.status) != closed && j.status == closed && j.wg == old(j.wg) - 1 && $wgdone[0] == old($wgdone[0]) + 1
 //@   ensures [refused]    result != nil ==> j.status == old(j.status) && j.wg == old(j.wg) && $wgdone[0] == old($wgdone[0])
+//@   ensures [succeeds]   old(j.status) != processing && old(j.status) != closed && (j.ackId == "" || !$impl(IAcknowledgeable, j.queue)) ==> result == nil
 //@   ensures [ackonce]    $acks(j.queue) == old($acks(j.queue)) || ($acks(j.queue) == old($acks(j.queue)) + 1 && $lastAck(j.queue) == j.ackId && j.ackId != "")
 //@   ensures [ri]         RI_job(j)
 
@@ -153,3 +154,103 @@ package varmq
 //@   ensures [errs]    old(rj.job.status) == processing ==> result == ErrJobProcessing
 //@   ensures [errs2]   old(rj.job.status) == closed ==> result == ErrJobAlreadyClosed
 //@   ensures [ri]      RI_job($addr(rj.job)) && RespOpen(rj.Response, rj.job.status)
+
+// ---------------------------------------------------------------- group_job.go (batches)
+// A batch shares one counter (wgc) and, for error/result workers, one response stream; the stream is open while the counter is
+// positive. A member that is not yet closed accounts for one unit of the counter.
+//@ pred MemberOK(st int, wgc *helpers.WgCounter) := wgc != nil && RI_Wgc(wgc) && (st != closed ==> wgc.count >= 1)
+//@ pred StreamOK(r *helpers.Response, wgc *helpers.WgCounter) := r != nil && r.ch != nil && (wgc.count >= 1 ==> $open(r.ch))
+
+//@ func newGroupJob
+//@   props C05 C08
+//@   requires 0 <= bufferSize && bufferSize <= MaxUint32
+//@   modifies $alloc
+//@   ensures [fresh] $fresh(result) && result.wgc != nil && $fresh(result.wgc) && result.wgc.count == bufferSize && RI_Wgc(result.wgc)
+
+//@ func groupJob.newJob
+//@   props C05 C08 C07 C16
+//@   modifies $alloc
+//@   ensures [fresh] $fresh(result) && result.wgc == gj.wgc && result.job.data == data && result.job.status == created && result.job.ackId == "" && result.job.queue == nil
+//@   ensures [ri]    RI_member($addr(result.job))
+
+//@ func groupJob.NumPending
+//@   props C08 C17
+//@   requires gj.wgc != nil
+//@   ensures result == gj.wgc.count
+
+// Close of a batch member: refused while processing / when closed; otherwise closed and the batch counter drops by exactly one.
+//@ func groupJob.Close
+//@   props C05 C08 C10 C16
+//@   requires RI_member($addr(gj.job)) && MemberOK(gj.job.status, gj.wgc)
+//@   modifies gj.job.status, gj.wgc.count, gj.wgc.wg, $acks(gj.job.queue), $lastAck(gj.job.queue), $alloc, $wgdone[0]
+//@   ensures [processing] old(gj.job.status) == processing ==> result == ErrJobProcessing && gj.job.status == processing && gj.wgc.count == old(gj.wgc.count)
+//@   ensures [closed]     old(gj.job.status) == closed ==> result == ErrJobAlreadyClosed && gj.wgc.count == old(gj.wgc.count)
+//@   ensures [done]       old(gj.job.status) != processing && old(gj.job.status) != closed ==> result == nil && gj.job.status == closed && gj.wgc.count == old(gj.wgc.count) - 1
+//@   ensures [ri]         RI_member($addr(gj.job)) && RI_Wgc(gj.wgc)
+
+//@ func newResultGroupJob
+//@   props C08 C05
+//@   requires 0 <= bufferSize && bufferSize <= MaxUint32
+//@   modifies $alloc
+//@   ensures [fresh]  $fresh(result) && result.wgc != nil && $fresh(result.wgc) && result.wgc.count == bufferSize && RI_Wgc(result.wgc)
+//@   ensures [stream] result.resultJob.Response != nil && result.resultJob.Response.ch != nil && $cap(result.resultJob.Response.ch) == bufferSize
+//@                      && $sent(result.resultJob.Response.ch) == 0 && $rcvd(result.resultJob.Response.ch) == 0
+//@   ensures [open]   bufferSize > 0 ==> $open(result.resultJob.Response.ch)
+//@   ensures [empty]  bufferSize == 0 ==> !$open(result.resultJob.Response.ch)
+
+//@ func resultGroupJob.newJob
+//@   props C08 C05 C07 C16
+//@   modifies $alloc
+//@   ensures [fresh] $fresh(result) && result.wgc == gj.wgc && result.resultJob.Response == gj.resultJob.Response && result.resultJob.job.data == data
+//@                     && result.resultJob.job.status == created && result.resultJob.job.ackId == "" && result.resultJob.job.queue == nil
+//@   ensures [ri]    RI_member($addr(result.resultJob.job))
+
+//@ func resultGroupJob.NumPending
+//@   props C08 C17
+//@   requires gj.wgc != nil
+//@   ensures result == gj.wgc.count
+
+// Close of a result-batch member: as groupJob.Close, and the stream is closed exactly when the counter reaches zero.
+//@ func resultGroupJob.Close
+//@   props C05 C08 C10 C16
+//@   requires RI_member($addr(gj.resultJob.job)) && MemberOK(gj.resultJob.job.status, gj.wgc) && StreamOK(gj.resultJob.Response, gj.wgc)
+//@   modifies gj.resultJob.job.status, gj.wgc.count, gj.wgc.wg, $acks(gj.resultJob.job.queue), $lastAck(gj.resultJob.job.queue), $alloc, $wgdone[0], $open(gj.resultJob.Response.ch)
+//@   ensures [refused] (old(gj.resultJob.job.status) == processing || old(gj.resultJob.job.status) == closed) ==> result != nil && gj.wgc.count == old(gj.wgc.count)
+//@                       && $open(gj.resultJob.Response.ch) == old($open(gj.resultJob.Response.ch)) && gj.resultJob.job.status == old(gj.resultJob.job.status)
+//@   ensures [done]    old(gj.resultJob.job.status) != processing && old(gj.resultJob.job.status) != closed ==> result == nil && gj.resultJob.job.status == closed
+//@                       && gj.wgc.count == old(gj.wgc.count) - 1
+//@   ensures [last]    result == nil ==> ($open(gj.resultJob.Response.ch) <==> gj.wgc.count >= 1)
+//@   ensures [ri]      RI_member($addr(gj.resultJob.job)) && RI_Wgc(gj.wgc) && StreamOK(gj.resultJob.Response, gj.wgc)
+
+//@ func newErrorGroupJob
+//@   props C08 C05
+//@   requires 0 <= bufferSize && bufferSize <= MaxUint32
+//@   modifies $alloc
+//@   ensures [fresh]  $fresh(result) && result.wgc != nil && $fresh(result.wgc) && result.wgc.count == bufferSize && RI_Wgc(result.wgc)
+//@   ensures [stream] result.errorJob.Response != nil && result.errorJob.Response.ch != nil && $cap(result.errorJob.Response.ch) == bufferSize
+//@                      && $sent(result.errorJob.Response.ch) == 0 && $rcvd(result.errorJob.Response.ch) == 0
+//@   ensures [open]   bufferSize > 0 ==> $open(result.errorJob.Response.ch)
+//@   ensures [empty]  bufferSize == 0 ==> !$open(result.errorJob.Response.ch)
+
+//@ func errorGroupJob.newJob
+//@   props C08 C05 C07 C16
+//@   modifies $alloc
+//@   ensures [fresh] $fresh(result) && result.wgc == gj.wgc && result.errorJob.Response == gj.errorJob.Response && result.errorJob.job.data == data
+//@                     && result.errorJob.job.status == created && result.errorJob.job.ackId == "" && result.errorJob.job.queue == nil
+//@   ensures [ri]    RI_member($addr(result.errorJob.job))
+
+//@ func errorGroupJob.NumPending
+//@   props C08 C17
+//@   requires gj.wgc != nil
+//@   ensures result == gj.wgc.count
+
+//@ func errorGroupJob.Close
+//@   props C05 C08 C10 C16
+//@   requires RI_member($addr(gj.errorJob.job)) && MemberOK(gj.errorJob.job.status, gj.wgc) && StreamOK(gj.errorJob.Response, gj.wgc)
+//@   modifies gj.errorJob.job.status, gj.wgc.count, gj.wgc.wg, $acks(gj.errorJob.job.queue), $lastAck(gj.errorJob.job.queue), $alloc, $wgdone[0], $open(gj.errorJob.Response.ch)
+//@   ensures [refused] (old(gj.errorJob.job.status) == processing || old(gj.errorJob.job.status) == closed) ==> result != nil && gj.wgc.count == old(gj.wgc.count)
+//@                       && $open(gj.errorJob.Response.ch) == old($open(gj.errorJob.Response.ch)) && gj.errorJob.job.status == old(gj.errorJob.job.status)
+//@   ensures [done]    old(gj.errorJob.job.status) != processing && old(gj.errorJob.job.status) != closed ==> result == nil && gj.errorJob.job.status == closed
+//@                       && gj.wgc.count == old(gj.wgc.count) - 1
+//@   ensures [last]    result == nil ==> ($open(gj.errorJob.Response.ch) <==> gj.wgc.count >= 1)
+//@   ensures [ri]      RI_member($addr(gj.errorJob.job)) && RI_Wgc(gj.wgc) && StreamOK(gj.errorJob.Response, gj.wgc)
